@@ -47,6 +47,7 @@ def term(ctx: Ctx, fi: FuncInfo, src: str) -> str:
     """Canonical (origin-expanded) text of the expression `src` evaluated in the context of fi."""
     e = ast.parse(src, mode="eval").body
     # give the synthetic nodes a parent chain / owner so that type inference treats them as part of fi
+    ctx._extra.setdefault("keepalive", []).append(e)   # ids are used as keys: never let them be reused
     for n in ast.walk(e):
         ctx.prog.owner[id(n)] = fi
     alts = ctx.expand.expand(e, fi)
@@ -92,3 +93,68 @@ def trace_worker(ctx: Ctx):
             break
         f, roles = g, new_roles
     return f, roles
+
+
+LA = "deep.api.tracepoint.trigger.LocationAction"
+
+
+def literal_key(ctx: Ctx, fi: FuncInfo, e: ast.expr):
+    alts = ctx.expand.expand_nodes(e, fi)
+    if len(alts) == 1 and isinstance(alts[0], ast.Constant) and isinstance(alts[0].value, str):
+        return alts[0].value
+    return None
+
+
+def action_config_writers(ctx: Ctx):
+    """{builder function qname: (FuncInfo, ctor call, {key: value expr})} for every LocationAction(...) construction."""
+    out = {}
+    la = ctx.prog.cls(LA)
+    init = la.lookup("__init__")
+    for fi in ctx.prog.functions.values():
+        for call in ctx.types.calls_in(fi):
+            tg = ctx.types.resolve_call(call, fi)
+            if la not in tg.ctor:
+                continue
+            cfg = ctx.types.bind_args(init, call).get("config")
+            if cfg is None and len(call.args) >= 3:
+                cfg = call.args[2]
+            keys = {}
+            if isinstance(cfg, ast.Dict):
+                for k, v in zip(cfg.keys, cfg.values):
+                    if k is None:
+                        keys["**"] = v
+                        continue
+                    lk = literal_key(ctx, fi, k)
+                    keys[lk if lk is not None else "<dynamic:%s>" % norm(k)] = v
+            else:
+                keys["<non-literal config>"] = cfg
+            out.setdefault(fi.qname, []).append((fi, call, keys))
+    return out
+
+
+def action_config_reads(ctx: Ctx):
+    """[(function, key, node)] for every read of a key from a LocationAction's config mapping."""
+    out = []
+    la = ctx.prog.cls(LA)
+    cfg_field = la.mangle("__config")
+    for fi in ctx.prog.functions.values():
+        for n in ctx.types.nodes_in(fi):
+            base = key = None
+            if isinstance(n, ast.Call) and isinstance(n.func, ast.Attribute) and n.func.attr == "get" and n.args:
+                base, key = n.func.value, n.args[0]
+            elif isinstance(n, ast.Subscript) and isinstance(n.ctx, ast.Load):
+                base, key = n.value, n.slice
+            elif isinstance(n, ast.Compare) and len(n.ops) == 1 and isinstance(n.ops[0], (ast.In, ast.NotIn)):
+                base, key = n.comparators[0], n.left
+            if base is None:
+                continue
+            texts = ctx.expand.expand(base, fi)
+            if not any(t.endswith("." + cfg_field) for t in texts):
+                continue
+            # the receiver must be a LocationAction
+            if not any(x[0] == "inst" and x[1] == LA for x in ctx.types.type_of(base.value if isinstance(base, ast.Attribute) else base, fi)) \
+                    and not (fi.cls is la):
+                continue
+            lk = literal_key(ctx, fi, key)
+            out.append((fi, lk if lk is not None else "<dynamic:%s>" % norm(key), n))
+    return out
